@@ -386,6 +386,12 @@ func (op *HOp) render() string {
 		default:
 			return fmt.Sprintf("print \"R\", [incp(%s)]", op.T.String())
 		}
+	case "method":
+		// a length-changing array method through a path
+		if op.Fn == "push" {
+			return fmt.Sprintf("print \"R\", [%s.push(%s)]", op.T.String(), litText(op.Lit))
+		}
+		return fmt.Sprintf("print \"R\", [%s.%s()]", op.T.String(), op.Fn)
 	case "forin-set":
 		return fmt.Sprintf("for (fe in %s) { if (fe is object) { fe.%s = %s } }", op.T.String(), op.Key, litText(op.Lit))
 	case "forin-rebind":
@@ -818,6 +824,32 @@ func (h *Heap) apply(op *HOp) (string, error) {
 				return "", errUnsupported{"incp needs a number"}
 			}
 			return "[" + fmtNum(n+11) + "]", nil
+		}
+	case "method":
+		if err := h.methodOK(op); err != nil {
+			return "", err
+		}
+		v, _ := h.readPath(op.T)
+		items := v.Arr.Items
+		switch op.Fn {
+		case "pop":
+			if len(items) == 0 {
+				return "[null]", nil
+			}
+			last := items[len(items)-1].V
+			v.Arr.Items = items[:len(items)-1:len(items)-1]
+			return "[" + last.canon() + "]", nil
+		case "popfirst":
+			if len(items) == 0 {
+				return "[null]", nil
+			}
+			first := items[0].V
+			v.Arr.Items = append([]*HCell{}, items[1:]...)
+			return "[" + first.canon() + "]", nil
+		default:
+			r := ScanStream([]byte(op.Lit))
+			v.Arr.Items = append(items[:len(items):len(items)], &HCell{V: fromJVal(r.Values[0].V)})
+			return "[" + v.canon() + "]", nil
 		}
 	case "forin-set":
 		v, err := h.readPath(op.T)
@@ -1446,7 +1478,9 @@ func genHeapCase(t *Tape, maxOps int) *HeapCase {
 	n := 3 + t.Draw(maxOps)
 	for tries := 0; len(c.Ops) < n && tries < n*8; tries++ {
 		var op HOp
-		switch t.Weighted(6, 6, 3, 3, 5, 3, 1, 1, 1, 2, 1, 1, 1, 1, 1, 2, 2) {
+		switch t.Weighted(6, 6, 3, 3, 5, 3, 1, 1, 1, 2, 1, 1, 1, 1, 1, 2, 2, 3) {
+		case 17:
+			op = HOp{Kind: "method", T: genHeapPath(t, h, c.Vars, false), Fn: []string{"pop", "pop", "popfirst", "push"}[t.Draw(4)], Lit: heapScalarLits[t.Draw(len(heapScalarLits))]}
 		case 16:
 			src := HPath{Base: c.Vars[t.Draw(nv)]}
 			op = HOp{Kind: "opassign-incidx", T: genHeapPath(t, h, c.Vars, false), Src: &src, Op: []string{"+", "-", "*"}[t.Draw(3)], Num: float64(1 + t.Draw(9))}
@@ -1514,9 +1548,54 @@ func genHeapCase(t *Tape, maxOps int) *HeapCase {
 	return c
 }
 
+// methodOK: pop/popfirst/push through a path that addresses an existing array
+// held by exactly one cell (a length change seen through a second reference is
+// known finding K1).
+func (h *Heap) methodOK(op *HOp) error {
+	// the receiver must exist: every step addresses a present member
+	c := h.cell(op.T.Base)
+	v := c.V
+	for _, s := range op.T.Steps {
+		switch v.K {
+		case 'o':
+			m, ok := v.Obj.M[s.Key]
+			if s.IsIdx || !ok {
+				return errUnsupported{"receiver path does not exist"}
+			}
+			v = m.V
+		case 'a':
+			idx := s.Idx
+			if idx < 0 {
+				idx += len(v.Arr.Items)
+			}
+			if !s.IsIdx || idx < 0 || idx >= len(v.Arr.Items) {
+				return errUnsupported{"receiver path does not exist"}
+			}
+			v = v.Arr.Items[idx].V
+		default:
+			return errUnsupported{"receiver path does not exist"}
+		}
+	}
+	if v.K != 'a' {
+		return errUnsupported{"receiver is not an array"}
+	}
+	if h.arrRefs(v.Arr) > 1 && !h.allowAliasedPad {
+		return errUnsupported{"length change on an array reachable through two or more cells (known finding K1)"}
+	}
+	if op.Fn == "push" {
+		r := ScanStream([]byte(op.Lit))
+		if r.Status != RefClean || len(r.Values) != 1 {
+			return errUnsupported{"bad literal"}
+		}
+	}
+	return nil
+}
+
 // dryRun reports whether apply would succeed, without mutating the heap.
 func (h *Heap) dryRun(op *HOp) error {
 	switch op.Kind {
+	case "method":
+		return h.methodOK(op)
 	case "assign-lit":
 		return h.prevalidateWrite(op.T)
 	case "assign-path":
